@@ -145,6 +145,10 @@ def generate(rng, tier):
         fwc = 10 ** rng.uniform(1, 7)
     if exact:
         fwc = float(max(10, round(fwc)))
+    if rng.random() < 0.2:
+        bias = int(round(bias))            # integer-typed settings are legal
+    if rng.random() < 0.15:
+        fwc = fwc + rng.choice([0.25, 0.5, 0.75])      # a fractional full well
     frames = rng.choice([1, 1, 1, 2, 3, 4])
     m = rng.randint(2, hi)
     n = m if rng.random() < 0.4 else rng.randint(2, hi)
@@ -377,6 +381,30 @@ def execute(plan):
         lo, hi = int(dn.min()), int(dn.max())
         if lo < 0 or hi > S.cap:
             viol("dn-range", stage, min=lo, max=hi, cap=S.cap, bits=S.bits)
+        # far beyond full well the noise does not matter: the pixel sits at the full-well level (or the
+        # ADC ceiling), exactly.  Lower bound of the noisy pre-clip signal, 45 sigma below the mean:
+        if sim.total_calls > 0 and not (S.prnu is not None and d["dark"] != 0):
+            e = np.asarray(image).astype(np.float64) * d["t"]
+            dk = d["dark"] * d["t"]
+            if S.dcnu is not None:
+                dk = dk * S.dcnu
+            lam = e + dk
+            p = S.prnu if S.prnu is not None else 1.0
+            low = p * (lam - 45.0 * np.sqrt(lam)) - 45.0 * d["read_noise"] + d["bias"]
+            fw = np.broadcast_to(low > d["fwc"] * (1 + 1e-6) + 1.0, dn.shape)
+            if bool(np.any(fw)):
+                lvl = d["fwc"] / d["gain"]
+                if image.dtype == np.float32 or not (abs(lvl) < 2 ** 52):
+                    pass
+                else:
+                    want_lo, want_hi = min(math.floor(lvl * (1 - 1e-12)), S.cap), min(math.ceil(lvl * (1 + 1e-12)), S.cap)
+                    dd = dn.astype(np.float64)[fw]
+                    # floor (truncation) or nearest are both "the clipped, gain-scaled signal"
+                    if bool(np.any((dd < want_lo) | (dd > want_hi))):
+                        j = int(np.argmax((dd < want_lo) | (dd > want_hi)))
+                        viol("dn-fullwell", stage, got=float(dd[j]), want=[float(want_lo), float(want_hi)],
+                             fwc=d["fwc"], gain=d["gain"])
+                bump(probes, "fullwell_pixels_checked")
         if mode == "off" and sim.total_calls > 0 and not (S.prnu is not None and d["dark"] != 0):
             c = np.clip(ideal(image), 0, S.cap)
             c = np.broadcast_to(c, dn.shape)
@@ -722,23 +750,30 @@ def _bayer(np, B, mos, cfa, viol, bump, probes):
             gq = np.random.Generator(np.random.PCG64(int(mf.size) * 7919 + (0 if cfa == "rggb" else 1)))
             planes = {nm: (mf + gq.integers(1, 1000, mf.shape).astype(np.float64) * (j + 1))
                       for j, nm in enumerate(("r", "g1", "g2", "b"))}
-            for variant in ("return", "output-arg"):
+            keep = {nm: planes[nm].copy() for nm in planes}
+            other = "bggr" if cfa == "rggb" else "rggb"
+            for variant, lay in (("return", cfa), ("output-arg", cfa), ("return", other), ("return", cfa)):
+                SS = _SITES[lay]
+                # the caller's own plane objects are handed over every time
                 if variant == "return":
-                    comp = np.asarray(B.composite_bayer(planes["r"].copy(), planes["g1"].copy(), planes["g2"].copy(),
-                                                        planes["b"].copy(), cfa))
+                    comp = np.asarray(B.composite_bayer(planes["r"], planes["g1"], planes["g2"], planes["b"], lay))
                 else:
                     comp = np.full_like(mf, -1.0)
-                    ret = B.composite_bayer(planes["r"].copy(), planes["g1"].copy(), planes["g2"].copy(),
-                                            planes["b"].copy(), cfa, output=comp)
+                    ret = B.composite_bayer(planes["r"], planes["g1"], planes["g2"], planes["b"], lay, output=comp)
                     if not np.array_equal(np.asarray(ret), comp):
-                        viol("bayer-native-sites", "composite-output-arg", cfa=cfa, note="return differs from output=")
+                        viol("bayer-native-sites", "composite-output-arg", cfa=lay, note="return differs from output=")
+                if any(not np.array_equal(planes[nm], keep[nm]) for nm in planes):
+                    viol("input-mutated", "composite", cfa=lay,
+                         what="a colour plane passed to composite_bayer was modified in place")
+                    for nm in planes:
+                        planes[nm][...] = keep[nm]
                 if comp.shape != mf.shape:
-                    viol("bayer-native-sites", "composite", note="shape", cfa=cfa)
+                    viol("bayer-native-sites", "composite", note="shape", cfa=lay)
                     break
                 for nm in ("r", "g1", "g2", "b"):
-                    if not np.array_equal(_site(comp, S[nm]), _site(planes[nm], S[nm])):
+                    if not np.array_equal(_site(comp, SS[nm]), _site(keep[nm], SS[nm])):
                         viol("bayer-native-sites", "composite" if variant == "return" else "composite-output-arg",
-                             plane=nm, cfa=cfa)
+                             plane=nm, cfa=lay)
         bump(probes, f"bayer_{cfa}")
     except Exception as e:
         viol("raised", "bayer", exc=type(e).__name__, msg=str(e)[:160], cfa=cfa)
